@@ -84,6 +84,19 @@ pub trait Rt {
     fn rt_leaf_group_ref(&self) -> &Self::GR;
     fn rt_into_mid(self) -> Self::MO;
     fn rt_finish(self) -> u64;
+    /// consuming, fallible, wrapped success value, integer-coded
+    #[int_result]
+    fn rt_try_mid(self, fail: bool) -> Result<Self::MO, ()>;
+    /// the same with a C result
+    fn rt_try_mid_plain(self, fail: bool) -> Result<Self::MO, u8>;
+}
+
+/// consuming method returning an *unwrapped* associated type
+#[cglue_trait]
+pub trait Uw {
+    type R;
+    fn uw_val(&self) -> u64;
+    fn uw_take(self) -> Self::R;
 }
 
 cglue_trait_group!(LfRoGroup, LfRo, { MdX });
@@ -202,6 +215,29 @@ impl Rt for RtI {
     fn rt_finish(self) -> u64 {
         self.v + 9
     }
+    fn rt_try_mid(self, fail: bool) -> Result<MdI, ()> {
+        if fail {
+            Err(())
+        } else {
+            Ok(MdI { t: HeapTok::new(self.v * 5), v: self.v * 5 })
+        }
+    }
+    fn rt_try_mid_plain(self, fail: bool) -> Result<MdI, u8> {
+        if fail {
+            Err(self.v as u8)
+        } else {
+            Ok(MdI { t: HeapTok::new(self.v * 5), v: self.v * 5 })
+        }
+    }
+}
+impl Uw for RtI {
+    type R = u64;
+    fn uw_val(&self) -> u64 {
+        self.v
+    }
+    fn uw_take(self) -> u64 {
+        self.v + 11
+    }
 }
 impl RtX for RtI {
     fn rtx_val(&self) -> u64 {
@@ -220,11 +256,15 @@ pub enum Obj<'a> {
     Mid(MdBase<'a, CBox<'a, cglue::trait_group::c_void>, Cx>, u64),
     MidG(MdGroup<'a, CBox<'a, cglue::trait_group::c_void>, Cx>, u64),
     Leaf(LfBase<'a, CBox<'a, cglue::trait_group::c_void>, Cx>, u64),
+    Uw(UwBase<'a, CBox<'a, cglue::trait_group::c_void>, Cx, u64>, u64),
 }
 
 #[derive(Debug, Clone, Serialize, Deserialize, PartialEq)]
 pub enum Op {
     NewRoot(bool, u8),
+    NewUw(u8),
+    /// fallible consuming call: (object, fail, plain-result)
+    TryMid(u16, bool, bool),
     Call(u16),
     MidObj(u16),
     MidGroup(u16),
@@ -239,8 +279,9 @@ pub enum Op {
     IntoFinal(u16, u8),
     IntoMid(u16),
     Finish(u16),
-    /// the object consumed holds the last reference to the context
-    FinishLast,
+    /// the object consumed holds the last reference to the context; the argument selects the
+    /// consuming method (scalar, failing int-coded wrapped, failing plain wrapped, unwrapped assoc)
+    FinishLast(u8),
     Drop(u16),
 }
 
@@ -302,13 +343,55 @@ fn body(vc: &Ctx, case: &Case) -> Result<St, Fail> {
                     }
                 }
             }
+            Op::NewUw(v) => {
+                if let Some(a) = &arc {
+                    let v = *v as u64 + 1;
+                    pool.push(Obj::Uw(trait_obj!((RtI::new(v), mk_ctx(a)) as Uw), v));
+                }
+            }
             _ if n == 0 => {}
+            Op::TryMid(c, fail_it, plain) => {
+                let i = pick(*c, n);
+                if matches!(pool[i], Obj::Root(..) | Obj::RootG(..)) {
+                    st.transfers += 1;
+                    let o = pool.remove(i);
+                    macro_rules! go {
+                        ($o:expr, $v:expr) => {
+                            if *plain {
+                                match $o.rt_try_mid_plain(*fail_it) {
+                                    Ok(m) => {
+                                        ensure!(!*fail_it, "C13:variant", "{when}: failing call returned Ok");
+                                        st.derived += 1;
+                                        pool.push(Obj::Mid(m, $v * 5));
+                                    }
+                                    Err(e) => ensure!(*fail_it && e == $v as u8, "C13:variant", "{when}: wrong Err({e})"),
+                                }
+                            } else {
+                                match $o.rt_try_mid(*fail_it) {
+                                    Ok(m) => {
+                                        ensure!(!*fail_it, "C13:variant", "{when}: failing call returned Ok");
+                                        st.derived += 1;
+                                        pool.push(Obj::Mid(m, $v * 5));
+                                    }
+                                    Err(()) => ensure!(*fail_it, "C13:variant", "{when}: succeeding call returned Err"),
+                                }
+                            }
+                        };
+                    }
+                    match o {
+                        Obj::Root(o, v) => go!(o, v),
+                        Obj::RootG(o, v) => go!(o, v),
+                        _ => unreachable!(),
+                    }
+                }
+            }
             Op::Call(c) => match &pool[pick(*c, n)] {
                 Obj::Root(o, v) => ensure!(o.rt_val() == *v, "C01:ret", "{when}: root answers {}", o.rt_val()),
                 Obj::RootG(o, v) => ensure!(o.rt_val() == *v, "C01:ret", "{when}: root group answers {}", o.rt_val()),
                 Obj::Mid(o, v) => ensure!(o.md_val() == *v, "C01:ret", "{when}: mid answers {}", o.md_val()),
                 Obj::MidG(o, v) => ensure!(o.md_val() == *v, "C01:ret", "{when}: mid group answers {}", o.md_val()),
                 Obj::Leaf(o, v) => ensure!(o.lf_val() == *v, "C01:ret", "{when}: leaf answers {}", o.lf_val()),
+                Obj::Uw(o, v) => ensure!(o.uw_val() == *v, "C01:ret", "{when}: object answers {}", o.uw_val()),
             },
             Op::MidObj(c) => {
                 let new = match &pool[pick(*c, n)] {
@@ -509,21 +592,31 @@ fn body(vc: &Ctx, case: &Case) -> Result<St, Fail> {
                     Obj::RootG(o, v) => ensure!(o.rt_finish() == v + 9, "C01:ret", "{when}: consuming call answers wrongly"),
                     Obj::Mid(o, v) => ensure!(o.md_done() == v + 7, "C01:ret", "{when}: consuming call answers wrongly"),
                     Obj::MidG(o, v) => ensure!(o.md_done() == v + 7, "C01:ret", "{when}: consuming call answers wrongly"),
+                    Obj::Uw(o, v) => ensure!(o.uw_take() == v + 11, "C01:ret", "{when}: consuming call answers wrongly"),
                     o => pool.insert(i, o),
                 }
             }
-            Op::FinishLast => {
+            Op::FinishLast(via) => {
                 // only meaningful when exactly one object holds the context and nothing leaked
-                if pool.len() == 1 && st.leak == 0 && arc.is_some() && matches!(pool[0], Obj::Root(..) | Obj::Mid(..) | Obj::RootG(..)) {
+                if pool.len() == 1 && st.leak == 0 && arc.is_some() && matches!(pool[0], Obj::Root(..) | Obj::Mid(..) | Obj::RootG(..) | Obj::Uw(..)) {
                     let a = arc.take();
                     capture.store(true, SeqCst);
                     drop(a); // the object's context is now the last reference
                     ensure!(weak.strong_count() == 1, "C07:ctx-count", "{when}: expected the object to hold the only reference, count is {}", weak.strong_count());
                     let o = pool.remove(0);
                     let r = match o {
-                        Obj::Root(o, v) => o.rt_finish() == v + 9,
-                        Obj::RootG(o, v) => o.rt_finish() == v + 9,
+                        Obj::Root(o, v) => match via % 3 {
+                            0 => o.rt_finish() == v + 9,
+                            1 => o.rt_try_mid(true).is_err(),
+                            _ => o.rt_try_mid_plain(true).err() == Some(v as u8),
+                        },
+                        Obj::RootG(o, v) => match via % 3 {
+                            0 => o.rt_finish() == v + 9,
+                            1 => o.rt_try_mid(true).is_err(),
+                            _ => o.rt_try_mid_plain(true).err() == Some(v as u8),
+                        },
                         Obj::Mid(o, v) => o.md_done() == v + 7,
+                        Obj::Uw(o, v) => o.uw_take() == v + 11,
                         _ => true,
                     };
                     capture.store(false, SeqCst);
@@ -630,7 +723,9 @@ fn op_strategy() -> impl Strategy<Value = Op> {
         1 => (any::<u16>(), 0u8..2).prop_map(|(i, w)| Op::IntoFinal(i, w)),
         2 => any::<u16>().prop_map(Op::IntoMid),
         2 => any::<u16>().prop_map(Op::Finish),
-        1 => Just(Op::FinishLast),
+        1 => (0u8..3).prop_map(Op::FinishLast),
+        1 => any::<u8>().prop_map(Op::NewUw),
+        2 => (any::<u16>(), any::<bool>(), any::<bool>()).prop_map(|(i, f, p)| Op::TryMid(i, f, p)),
         4 => any::<u16>().prop_map(Op::Drop),
     ]
 }
@@ -641,20 +736,21 @@ pub fn strategy() -> impl Strategy<Value = Case> {
 
 /// histories built to end in a consuming call on the last holder
 pub fn last_holder_strategy() -> impl Strategy<Value = Case> {
-    (any::<bool>(), any::<u8>(), 0u8..3, prop::collection::vec(any::<u16>(), 0..4)).prop_map(|(g, v, via, pre)| {
-        let mut ops = vec![Op::NewRoot(g, v)];
+    (any::<bool>(), any::<u8>(), 0u8..5, 0u8..3, prop::collection::vec(any::<u16>(), 0..4)).prop_map(|(g, v, via, how, pre)| {
+        let mut ops = if via == 3 { vec![Op::NewUw(v)] } else { vec![Op::NewRoot(g, v)] };
         for p in pre {
             ops.push(Op::Call(p));
         }
         match via {
-            0 => {}
             1 => ops.push(Op::IntoMid(0)),
-            _ => {
+            2 => {
                 ops.push(Op::MidObj(0));
                 ops.push(Op::Drop(0));
             }
+            4 => ops.push(Op::TryMid(0, false, how == 1)),
+            _ => {}
         }
-        ops.push(Op::FinishLast);
+        ops.push(Op::FinishLast(how));
         Case { ops, drop_order: vec![] }
     })
 }
